@@ -42,6 +42,7 @@ Check(e) ==
   IF ~e.noarea /\ e.area2 # Area2(g) THEN "area"
   ELSE IF ~e.noarea /\ Orient(g) # 0 /\ e.sarea2 # Orient(g)*Area2(g) THEN "signed-area"
   ELSE IF ~e.noarea /\ e.area2t # e.ts*e.ts*Area2(g) THEN "area-with-transform"
+  ELSE IF ~e.noarea /\ (e.rev[2] # -e.rev[1] \/ e.rev[3] # e.rev[1]) THEN "signed-area-under-reverse"
   \* (in a general-position float image a length that is an exact multiple of 1/256 may come out one unit lower)
   ELSE IF ~(LenLo(g) - (IF e.gp THEN 1 ELSE 0) - e.slen <= e.lenn /\ e.lenn <= LenHi(g) + e.slen) THEN "length"
   ELSE CheckCentroid(e,g)
